@@ -377,6 +377,8 @@ def observe_species(c):
 def g_jv(v):
     if v is None:
         return "JNull"
+    if isinstance(v, (list, tuple)):
+        return "(JArr %s)" % g_list([g_jv(x) for x in v])
     if isinstance(v, bool):
         return "(JBool %s)" % g_bool(v)
     if isinstance(v, str):
@@ -384,6 +386,34 @@ def g_jv(v):
     if isinstance(v, dict):
         return "(JObj %s)" % g_list(["(%s, %s)" % (g_codepoints(k), g_jv(x)) for k, x in v.items()])
     raise ValueError("value outside the modelled JSON fragment: %r" % (v,))
+
+
+def g_species_obj(c):
+    def gq(q):
+        return "(%s, (%s, %s))" % (g_codepoints(repr(float(q["v"]))), si.g_usys(q["sys"]), si.g_dim(q["dim"]))
+
+    def gev(ev, leaf):
+        if "scalar" in ev:
+            return "(EScalar _ %s)" % leaf(ev["scalar"])
+        return "(EDict _ %s)" % g_list(["(%s, %s)" % (g_codepoints(k), leaf(x)) for k, x in ev["dict"]])
+    return "(Build_species_obj str %s %s %s %s %s)" % (
+        g_codepoints(c["label"]), gev(c["D"], gq), gev(c["dens"], gq), gev(c["chstt"], g_bool), si.g_usys(c["units"]))
+
+
+def g_reaction_obj(c):
+    def gq(q):
+        return "(%s, (%s, %s))" % (g_codepoints(repr(float(q["v"]))), si.g_usys(q["sys"]), si.g_dim(q["dim"]))
+
+    def gev(ev):
+        if "scalar" in ev:
+            return "(EScalar _ %s)" % gq(ev["scalar"])
+        return "(EDict _ %s)" % g_list(["(%s, %s)" % (g_codepoints(k), gq(x)) for k, x in ev["dict"]])
+
+    def gside(sd):
+        return g_list(["(%s, %s)" % (g_codepoints(l), core.g_z(z)) for l, z in sd])
+    return "(Build_reaction_obj str %s (%s, %s) %s %s %s)" % (
+        "None" if c["label"] is None else "(Some %s)" % g_codepoints(c["label"]), gside(c["sub"]), gside(c["prod"]), gev(c["kf"]), gev(c["kr"]),
+        si.g_usys(c["units"]))
 
 
 def emit_species(c, o):
@@ -532,6 +562,108 @@ def reaction_items(cases):
     return items
 
 
+def make_network_case(rng):
+    """species and reactions as in the two classes above (reactions over the declared labels), environment names, units at every level"""
+    labels = rng.sample(["A", "B", "C2", "x_y", "ATP", "2PG"], rng.randint(1, 4))
+    species = []
+    for l in labels:
+        sc = make_species_case(rng)
+        sc["label"] = l
+        species.append(sc)
+    reactions, used = [], set()
+    for _ in range(rng.randint(0, 3)):
+        rc = make_reaction_case(rng)
+        def side():
+            ls = rng.sample(labels, rng.randint(0, min(3, len(labels))))
+            return [[l, rng.choice([0, 1, 1, 2, 3])] for l in ls]
+        rc["sub"], rc["prod"] = side(), side()
+        n, m = sum(z for _, z in rc["sub"]), sum(z for _, z in rc["prod"])
+        for key, order in (("kf", n), ("kr", m)):
+            ev = rc[key]
+            for q in ([ev["scalar"]] if "scalar" in ev else [x for _, x in ev["dict"]]):
+                q["dim"] = list(sysgen.kdim(order))
+        if rc["label"] in used:
+            rc["label"] = None
+        if rc["label"] is not None:
+            used.add(rc["label"])
+        reactions.append(rc)
+    envs = rng.sample(["e0", "e1", "cyt", "nucleus", ""], rng.randint(1, 3))
+    return {"species": species, "reactions": reactions, "envs": envs, "units": list(sysgen.rand_sys(rng)), "parent": list(sysgen.rand_sys(rng)),
+            "alias_seed": rng.randrange(2 ** 30)}
+
+
+def observe_network(c):
+    import strengths
+    import strengths.rdnetwork as rn
+    U = strengths.units
+
+    def arg(ev):
+        return _qtext(ev["scalar"]) if "scalar" in ev else {k: _qtext(q) for k, q in ev["dict"]}
+    try:
+        sps = []
+        for sc in c["species"]:
+            chs = sc["chstt"]["scalar"] if "scalar" in sc["chstt"] else {k: b for k, b in sc["chstt"]["dict"]}
+            sps.append(strengths.Species(label=sc["label"], D=arg(sc["D"]), density=arg(sc["dens"]), chstt=chs, units_system=sysgen.py_sys(U, sc["units"])))
+        rs = [strengths.Reaction([dict((l, z) for l, z in rc["sub"]), dict((l, z) for l, z in rc["prod"])], kf=arg(rc["kf"]), kr=arg(rc["kr"]),
+                                 label=rc["label"], units_system=sysgen.py_sys(U, rc["units"])) for rc in c["reactions"]]
+        net = strengths.RDNetwork(species=sps, reactions=rs, environments=list(c["envs"]), units_system=sysgen.py_sys(U, c["units"]))
+        written = rn.rdnetwork_to_dict(net)
+    except Exception as e:
+        return {"error": "%s: %s" % (type(e).__name__, str(e)[:100])}
+    written = json.loads(json.dumps(written))          # tuples become lists, as in a file
+    parent = sysgen.py_sys(U, c["parent"])
+    rng = random.Random(c["alias_seed"])
+    variants = [["as_written", copy.deepcopy(written)]]
+    for syn in ALIASES.get("network", []):
+        if syn[0] in written and len(syn) > 1 and rng.random() < 0.6:
+            v = copy.deepcopy(written)
+            v[rng.choice(syn[1:])] = v.pop(syn[0])
+            variants.append(["alias:" + syn[0], v])
+    for key in ("reactions", "units"):
+        if rng.random() < 0.4 and (key != "reactions" or not written["reactions"]):
+            v = copy.deepcopy(written)
+            del v[key]
+            variants.append(["omitted:" + key, v])
+    if written["species"] and rng.random() < 0.5:      # a nested alias and a nested omission
+        v = copy.deepcopy(written)
+        sp0 = v["species"][0]
+        sp0["dens"] = sp0.pop("density")
+        del sp0["units"]
+        variants.append(["nested", v])
+    out = []
+    for label, v in variants:
+        try:
+            out.append([label, v, json.loads(json.dumps(rn.rdnetwork_to_dict(rn.rdnetwork_from_dict(copy.deepcopy(v), parent))))])
+        except Exception as e:
+            out.append([label, v, {"raised": type(e).__name__}])
+    return {"written": written, "variants": out}
+
+
+def emit_network(c, o):
+    gn = "(Build_network_obj str %s %s %s %s)" % (g_list([g_species_obj(sc) for sc in c["species"]]), g_list([g_reaction_obj(rc) for rc in c["reactions"]]),
+                                                   g_list([g_codepoints(e) for e in c["envs"]]), si.g_usys(c["units"]))
+    gc = "((%s : ne_obj), %s)" % (gn, si.g_usys(c["parent"]))
+    if "error" in o:
+        return gc, "(JBool false, [])"
+    go = "(%s, %s)" % (g_jv(o["written"]), g_list(["(%s, %s)" % (g_jv(v), g_jv(w)) for _, v, w in o["variants"]]))
+    return gc, go
+
+
+def network_items(cases):
+    obs = child.map_children("c12", "observe_network", cases, timeout=60)
+    items = []
+    for c, o in zip(cases, obs):
+        if "timeout" in o or "crash" in o:
+            o = {"error": "timeout or crash"}
+        try:
+            gc, go = emit_network(c, o)
+        except ValueError as e:
+            o = {"error": str(e)}
+            gc, go = emit_network(c, o)
+        items.append({"case": c, "obs": o, "gcase": gc, "gobs": go, "nontrivial": "error" not in o})
+    return items
+
+
 def check(run):
     rng = random.Random(run.seed)
     sysgen.POOLS["space"] = ["cm", "mm", "dmm", "cmm", "µm", "nm", "dm"]
@@ -568,12 +700,20 @@ def check(run):
         for label, _, _ in it["obs"].get("variants", []):
             run.count("reaction_variant:" + label.split(":")[0])
     core.decide(run, ritems, IMPORTS, "accept_C12_reaction", oracle_species, shard=40)
+    nitems = network_items([make_network_case(rng) for _ in range(ns // 2)])
+    for it in nitems:
+        for label, _, _ in it["obs"].get("variants", []):
+            run.count("network_variant:" + label.split(":")[0])
+    core.decide(run, nitems, IMPORTS, "accept_C12_network", oracle_species, shard=15)
 
 
 def replay(run, payload):
     sysgen.POOLS["space"] = ["cm", "mm", "dmm", "cmm", "µm", "nm", "dm"]
     if payload.get("correspondence") == "accept_C12_species":
         core.decide(run, species_items([payload["case"]]), IMPORTS, "accept_C12_species", oracle_species)
+        return
+    if payload.get("correspondence") == "accept_C12_network":
+        core.decide(run, network_items([payload["case"]]), IMPORTS, "accept_C12_network", oracle_species)
         return
     if payload.get("correspondence") == "accept_C12_reaction":
         core.decide(run, reaction_items([payload["case"]]), IMPORTS, "accept_C12_reaction", oracle_species)
